@@ -9,6 +9,7 @@ CONSTANTS
   Extra <- FourProc
   GFirst = TRUE
   SelDet = FALSE
+  LogOn = TRUE
 VIEW View
 INVARIANT TypeOK
 INVARIANT Exclusion
